@@ -14,10 +14,6 @@ Arguments v2 i%Z x%float.
 Inductive cmref := RInline (m : cimat) | RStored (id : N) | ROther.
 Arguments RStored id%N.
 Inductive cvref := VIn (v : civec) | VOth.
-Definition fs (x : float) : option float := Some x.
-Arguments fs x%float.
-Definition zo (z : Z) : option Z := Some z.
-Arguments zo z%Z.
 
 Record creq := CQ { cq_local : cmref; cq_initial : option cvref; cq_pre : option cvref;
                     cq_alpha : option float; cq_eps : option float;
